@@ -128,7 +128,7 @@ func socketReceive(s *slip.Scope, fd int, args slip.List, depth int) slip.Object
 		if 0 < len(args) {
 			if args[0] != nil {
 				if num, ok := args[0].(slip.Fixnum); ok {
-					if num <= 0 {
+					if num <= 0 || slip.ArrayMaxDimension < num {
 						slip.TypePanic(s, depth, "length", num, "positive fixnum")
 					}
 					length = int(num)
